@@ -183,23 +183,25 @@ def run_property(pid, tier, seed, out=sys.stdout):
         return (nr.get('failures') or [None])[0]
 
     grouped = {}
+    covers = {}
     for (q, ob), r in zip(obls, results):
         solver_s += r['time']
         by_backend[r['backend']] = by_backend.get(r['backend'], 0) + 1
         if ob.kind == 'cover':
-            if r['verdict'] == solve.PROVED:
-                continue
-            if r['verdict'] == solve.UNKNOWN:
-                nr = native_by_fn.get(q) or {}
-                if nr.get('checked', 0) > 0:
-                    continue        # reachability witnessed natively: some generated input satisfies requires
-                vacuity_unchecked.append(ob.name)
-                continue
-            # precondition / loop body unsatisfiable: the proof would be vacuous
-            undecided.append(dict(obligation=ob.name, why='vacuity: hypotheses unsatisfiable'))
+            covers.setdefault((q, ob.name), []).append(r['verdict'])
             continue
         grouped.setdefault((q, ob.name), []).append((ob, r))
 
+    # vacuity guards: a cover obligation is 'proved' when its hypotheses are satisfiable, 'refuted' when they
+    # are contradictory.  Contradictory requires / loop-body hypotheses, or ALL return paths contradictory,
+    # mean every proof of that function would be vacuous.
+    for (q, name), verdicts in covers.items():
+        if all(v == solve.REFUTED for v in verdicts):
+            undecided.append(dict(obligation=name, why='VACUITY: hypotheses are contradictory on every path (%d)' % len(verdicts)))
+        elif not any(v == solve.PROVED for v in verdicts):
+            nr = native_by_fn.get(q) or {}
+            if not nr.get('checked', 0):
+                vacuity_unchecked.append(name)
     for (q, name), items in grouped.items():
         total += 1
         verdicts = [r['verdict'] for _, r in items]
